@@ -20,6 +20,9 @@ def overlapping_exons(case):
 
 
 PREDICATES = {
+    # a pool worker that is lost (killed, or left through SystemExit) while holding a task
+    "C18-F1": lambda case, clause: case.get("kind") == "lost-worker" and case.get("position", -1) >= 0
+    and clause == "worker-lost-call-never-returns",
     # a gene whose exons overlap (programmed frameshift) - any way of placing an annotation in it
     "C09-F2": lambda case, clause: overlapping_exons(case) and case.get("via") != "prepeptide-stop" and (
         clause.endswith("-not-three-per-residue") or clause.endswith("-wrong-bases") or clause.endswith("-raised")
